@@ -13,8 +13,10 @@ What is read (non-recursive engine; fail closed - an unknown shape is an AnchorE
   * StylesheetExecutionContextDefault::reset / push / pop / getCurrentTemplate on m_currentTemplateStack;
   * VariablesStack::findXObject evaluates a top-level variable with (pushCurrentTemplate(0) .. popCurrentTemplate() around getValue) or without
     (the code now) a null current rule -> gen_global_null;
-  * ElemTemplateElement::executeChildren (used by ElemVariable::getValue) takes the shortcut through execute() of
-    the template (the code now) or executes the xsl:call-template child instead -> gen_global_direct;
+  * ElemTemplateElement::executeChildren (used by ElemVariable::getValue) runs every child through execute(); the
+    shortcut is set up by postConstruction for every element (the code now: the template of a top-level variable's
+    shortcut is run by execute() with its parent - null - as invoker) or not for elements without parent
+    (top-level variables) -> gen_global_direct;
   * census: no other file of src/xalanc/XSLT touches the current-template stack."""
 import re, os, glob
 import srcfacts
@@ -110,19 +112,16 @@ def gen_currule():
             or ex.count("pushInvoker ( invoker )") != 1 or ex.count("popInvoker") != 1:
         raise AnchorError("ElemTemplateElement::execute: pushInvoker(getParentNodeElem()) .. popInvoker() not recognised")
     ec = fn(te, "ElemTemplateElement::executeChildren", "ElemTemplateElement::executeChildren")
-    loop = (r"const ElemTemplateElement \* element = beginExecuteChildren \( executionContext \) ; while \( element != 0 \) "
-            r"\{ element -> execute \( executionContext \) ; element = getNextChildElemToExecute \( executionContext , element \) ; \} "
-            r"endExecuteChildren \( executionContext \) ; \}")
-    if re.fullmatch(r"\{ " + loop, ec):
-        facts["global_direct"] = False
-    elif re.fullmatch(r"\{ if \( hasDirectTemplate \( \) == true \) \{ (?:assert \( [^;]* \) ; )?m_firstChild -> execute \( executionContext \) ; return ; \} " + loop, ec):
-        facts["global_direct"] = True
-    else:
-        raise AnchorError("ElemTemplateElement::executeChildren has neither of the two known shapes")
+    if ec != ("{ const ElemTemplateElement * element = beginExecuteChildren ( executionContext ) ; while ( element != 0 ) "
+              "{ element -> execute ( executionContext ) ; element = getNextChildElemToExecute ( executionContext , element ) ; } "
+              "endExecuteChildren ( executionContext ) ; }"):
+        raise AnchorError("ElemTemplateElement::executeChildren: begin / execute() of every child / end not recognised")
     pc = toks(function_body(read(D + "ElemTemplateElement.cpp"), r"ElemTemplateElement::postConstruction\s*\(", "postConstruction"))
-    if not re.search(r"else if \( theToken == StylesheetConstructionContext :: ELEMNAME_CALL_TEMPLATE && m_firstChild -> getNextSiblingElem \( \) == 0 \) "
-                     r"\{ if \( m_firstChild -> hasParams \( \) == false \) \{ m_flags \|= eHasDirectTemplate ;", pc):
-        raise AnchorError("postConstruction: the condition of the direct-template shortcut (only child, xsl:call-template, no parameters) not recognised")
+    m = re.search(r"else if \( theToken == StylesheetConstructionContext :: ELEMNAME_CALL_TEMPLATE && m_firstChild -> getNextSiblingElem \( \) == 0 \) "
+                  r"\{ if \( m_firstChild -> hasParams \( \) == false (&& getParentNodeElem \( \) != 0 )?\) \{ m_flags \|= eHasDirectTemplate ;", pc)
+    if not m:
+        raise AnchorError("postConstruction: the condition of the direct-template shortcut (only child, xsl:call-template, no parameters[, not top-level]) not recognised")
+    facts["global_direct"] = bool(m.group(1))
     ev = nonrecursive(read(D + "ElemVariable.cpp"), "ElemVariable.cpp")
     gv = fn(ev, "ElemVariable::getValue", "ElemVariable::getValue")
     if "executeChildren ( executionContext ) ;" not in gv:
@@ -185,7 +184,7 @@ def gen_currule():
     o += "Definition gen_call_keeps : bool := %s.\n\n" % b2c(facts["call_keeps"])
     o += "(* VariablesStack::findXObject evaluates a top-level variable under a null current rule *)\n"
     o += "Definition gen_global_null : bool := %s.\n\n" % b2c(facts["global_null"])
-    o += "(* ElemTemplateElement::executeChildren executes the xsl:call-template child instead of taking the shortcut *)\n"
+    o += "(* ElemTemplateElement::postConstruction sets up no direct-template shortcut for a top-level variable *)\n"
     o += "Definition gen_global_direct : bool := %s.\n\n" % b2c(facts["global_direct"])
     o += "Definition gen_variant : variant :=\n  {| v_call_keeps := gen_call_keeps; v_global_null := gen_global_null; v_global_direct := gen_global_direct |}.\n"
     return o, facts
